@@ -82,6 +82,9 @@ class Extractor:
         self.truncated = False
         self.unmodelled = []
         self.all_local_calls = False
+        self.track_takes = False
+        self.track_stores = False
+        self.track_ext = False
         self.order = []          # read call result SVs in path order (DFS stack discipline)
         self.read_sites = [(self.body.key, bi) for bi, t in self.body.calls() if callee_name(t) in READ_CALLS or callee_name(t) == "std::io::Read::read"]
         self.follow = follow or (lambda callee_body, t: True)
@@ -140,6 +143,11 @@ class Extractor:
                 return
             if st["place"]["l"] == 0 and not st["place"]["p"]:
                 rets.append(self.return_token(S))
+            elif self.track_stores and st["place"]["p"] and st["place"]["p"][0] == "*" and st["place"]["l"] == 1:
+                pl = Place(st["place"])
+                loc = it.resolve(S, pl)
+                fld = ".".join(e[2] for e in loc[1] if e[0] in ("f",))
+                rets.append(("store", fld, render_value(self.prog, S.read(loc), names=self.names())))
         it.cur = (bi, len(blk["stmts"]))
         it.counter = 0
         mark = len(self.order)
@@ -148,6 +156,13 @@ class Extractor:
         res = self._result_of_block(bi, res)
         k = t["k"]
         if k == "return":
+            if self.track_stores:
+                fin = []
+                nm = self.names()
+                for (root, proj), v in S.mem.items():
+                    if root[0] == "P" and is_param_load(root[1], 1) and proj and all(e[0] in ("f", "len") for e in proj):
+                        fin.append((".".join(e[2] if e[0] == "f" else "len" for e in proj), render_value(self.prog, v, names=nm)))
+                toks = toks + [("final", tuple(sorted(fin)))]
             self.paths.append(tuple(toks + [("end", res)]))
             del self.order[mark:]
             return
@@ -202,7 +217,12 @@ class Extractor:
             P = project(R, (("dc", 0, "Ok"), ("f", 0, "0")))
             d = S.dom(P)
             doms.append((rb, d.lo, d.hi, tuple(sorted(d.excl))))
-        return ("returns", render_value(self.prog, v, names=self.names()), tuple(doms))
+        from .summaries import int_leaves
+        leaves = []
+        for path, lv in int_leaves(v):
+            d = S.dom(lv)
+            leaves.append((".".join(e[2] for e in path if e[0] == "f"), d.lo, d.hi, tuple(sorted(d.excl))))
+        return ("returns", render_value(self.prog, v, names=self.names()), tuple(doms), tuple(leaves))
 
     # --------------------------------------------------------------------------------
     def decision_token(self, bi, succ, dv):
@@ -242,6 +262,14 @@ class Extractor:
         name = callee_name(t)
         args = [it.eval_op(S, a) for a in t["args"]]
         toks = []
+        if self.track_ext and args and callee_path(t) not in self.prog.bodies:
+            ty0 = it.op_type(t["args"][0])
+            a0 = args[0]
+            if ty0.get("k") == "ref" and ty0.get("mut") and isinstance(a0, tuple) and a0[0] == "ref":
+                root, proj = a0[1]
+                if root[0] == "P" and is_param_load(root[1], 1) and proj:
+                    fld = ".".join(e[2] for e in proj if e[0] == "f")
+                    toks.append(("mut", name.split("::")[-1] if not name.startswith("<") else name, fld, tuple(self.render_arg(S, x) for x in args[1:])))
         if self.mode == "w":
             if name in WRITE_CALLS and args and self.sink_pred(it, S, args[0], it.op_type(t["args"][0])):
                 w, n = WRITE_CALLS[name]
@@ -264,13 +292,30 @@ class Extractor:
                 for i, a in enumerate(t["args"]):
                     ty = it.op_type(a)
                     if ty.get("k") == "ref" and ty.get("mut") and is_u8_sink_type(ty) and self.sink_pred(it, S, args[i], ty) and self.follow(cb, t):
-                        toks.append(("call", cb.pretty, tuple(stable(x) for j, x in enumerate(args) if j != i)))
+                        toks.append(("call", cb.pretty, tuple(self.render_arg(S, x) for j, x in enumerate(args) if j != i)))
                         break
+                else:
+                    if self.all_local_calls and cb.kind != "closure" and not is_derived(cb) and self.follow(cb, t):
+                        toks.append(("call", cb.pretty, tuple(self.render_arg(S, x) for x in args)))
         else:
             if name in READ_CALLS:
                 w, n = READ_CALLS[name]
                 toks.append(("read", w + endian(t), (body.key, bi)))
                 self.order.append(("call", (body.key, bi, len(body.blocks[bi]["stmts"])), callee_path(t)))
+            elif name in ("bytes::bytes_mut::BytesMut::split_to", "bytes::buf::buf_impl::Buf::advance", "alloc::vec::Vec::drain", "alloc::vec::Vec::remove") and self.track_takes:
+                tgt = it.target(args[0])
+                fld = ".".join(e[2] for e in tgt[1] if e[0] == "f")
+                amount = args[1]
+                if name == "alloc::vec::Vec::remove":
+                    toks.append(("take", fld, "1@%s" % stable(amount)))
+                elif name == "alloc::vec::Vec::drain":
+                    from .models import range_bounds
+                    ln = it.len_of_ref(S, args[0], it.op_type(t["args"][0]))
+                    rb = range_bounds(it, S, amount, ln)
+                    toks.append(("take", fld, "%s..%s" % (stable(rb[0]), stable(rb[1])) if rb else "?"))
+                else:
+                    c = const_val(amount)
+                    toks.append(("take", fld, str(c) if c is not None else stable(amount), S.dom(amount).lo, S.dom(amount).hi))
             elif name == "std::io::Read::read_exact":
                 ln = it.len_of_ref(S, args[1], it.op_type(t["args"][1]))
                 toks.append(("read_exact", stable(ln), (body.key, bi)))
@@ -282,12 +327,23 @@ class Extractor:
                 for i, a in enumerate(t["args"]):
                     ty = it.op_type(a)
                     if ty.get("k") == "ref" and ty.get("mut") and self._is_source(ty) and self.follow(cb, t):
-                        toks.append(("call", cb.pretty, tuple(stable(x) for j, x in enumerate(args) if j != i)))
+                        toks.append(("call", cb.pretty, tuple(self.render_arg(S, x) for j, x in enumerate(args) if j != i)))
                         break
                 else:
                     if cb.kind != "closure" and not is_derived(cb) and self.follow(cb, t) and self.all_local_calls:
-                        toks.append(("call", cb.pretty, tuple(stable(x) for x in args)))
+                        toks.append(("call", cb.pretty, tuple(self.render_arg(S, x) for x in args)))
         return toks
+
+    def render_arg(self, S, x):
+        """arguments are rendered by value; a reference to a local aggregate is rendered as &<the aggregate>"""
+        if isinstance(x, tuple) and x[0] == "ref" and x[1][0][0] in ("L", "PR", "V"):
+            v = S.read(x[1])
+            from . import interp as I
+            if I.root_is_promoted(x[1]):
+                v = I.promoted_read(x[1], v)
+            if x[1][0][0] == "L" or (isinstance(v, tuple) and v[0] in ("agg", "upd", "k", "vagg")):
+                return "&" + render_value(self.prog, v, names=self.names())
+        return render_value(self.prog, x, names=self.names()) if isinstance(x, tuple) and x[0] in ("agg", "upd") else stable(x)
 
     def _is_byte_vec(self, ty):
         t = ty
@@ -342,6 +398,12 @@ def render_value(prog, v, depth=0, names=None):
         return "%s(%s)" % (kind, ", ".join(render_value(prog, f, depth + 1, names) for f in fields))
     if h == "upd":
         return render_value(prog, v[1], depth, names)
+    if h == "bin":
+        return "(%s %s %s)" % (render_value(prog, v[3], depth + 1, names), v[1], render_value(prog, v[4], depth + 1, names))
+    if h == "cast":
+        return "(%s as %s)" % (render_value(prog, v[2], depth + 1, names), v[1])
+    if h in ("min", "max"):
+        return "%s(%s,%s)" % (h, render_value(prog, v[2], depth + 1, names), render_value(prog, v[3], depth + 1, names))
     if h == "call" and names:
         # a local constructor call wrapping a read value, e.g. RtmpTimestamp::new(#2)
         return stable(v)
@@ -352,9 +414,22 @@ def emitted(env, key, entry=None, sink_pred=None, follow=None):
     return Extractor(env, key, "w", entry, sink_pred, follow=follow).run()
 
 
-def reads(env, key, entry=None, follow=None, all_local_calls=False):
+def reads(env, key, entry=None, follow=None, all_local_calls=False, takes=False, stores=False, ext=False):
     ex = Extractor(env, key, "r", entry, follow=follow)
     ex.all_local_calls = all_local_calls
+    ex.track_takes = takes
+    ex.track_stores = stores
+    ex.track_ext = ext
+    return ex.run()
+
+
+def trace(env, key, mode="w", entry=None):
+    """everything: sink writes or reads, all local calls with rendered arguments, stores to self, mutating library calls on self"""
+    ex = Extractor(env, key, mode, entry)
+    ex.all_local_calls = True
+    ex.track_takes = True
+    ex.track_stores = True
+    ex.track_ext = True
     return ex.run()
 
 
@@ -366,11 +441,24 @@ def strip(path, keep=("u8", "u16be", "u24be", "u32be", "u32le", "u16le", "u24le"
     return tuple(t for t in path if t[0] in keep or t[0].rstrip("bel") in ("u8", "u16", "u24", "u32", "u64", "f64"))
 
 
+VERBOSE_CALLS = False
+
+
 def fmt_tok(t):
     if t[0] == "when":
         return "[%s=%s]" % (t[1], t[2])
     if t[0] == "again":
         return "*"
+    if t[0] == "take":
+        return "take(%s,%s)" % (t[1], t[2])
+    if t[0] == "mut":
+        return "MUT[%s.%s(%s)]" % (t[2], t[1], ", ".join(t[3]))
+    if t[0] == "call" and len(t) > 2 and t[2] and VERBOSE_CALLS:
+        return "<%s(%s)>" % (t[1].split("::")[-1], ", ".join(t[2]))
+    if t[0] == "final":
+        return "FINAL{%s}" % ", ".join("%s=%s" % x for x in t[1])
+    if t[0] == "store":
+        return "{%s:=%s}" % (t[1], t[2])
     if t[0] == "returns":
         return "=>%s%s" % (t[1], "".join(" {bb%d:[%s,%s]%s}" % (b, lo, hi, ("\\" + str(list(ex))) if ex else "") for b, lo, hi, ex in t[2]))
     if t[0] == "end":
